@@ -66,10 +66,24 @@ def _local_from_unpack_of(p, f, call_pred):
 
 def api_inners(p):
     """The `inner` wrappers of frontend/api.py that run the compiled function."""
+    cached = getattr(p, "_api_inners", None)
+    if cached is not None:
+        return cached
     inners = [f for f in p.funcs.values() if f.module.name.endswith("frontend.api") and f.parent is not None and f.parent.name.startswith("_api_with")]
     if len(inners) < 2:
         raise AnalysisError(f"anchor vanished: expected the two api wrappers in frontend/api.py, found {[f.qualname for f in inners]}")
-    return inners
+    # the wrappers as they run: small module-level helpers they call (`args, kwargs = _trace_arguments(...)`,
+    # `return _run(function, code, tensor_args, graph=graph)`) are written out in place
+    from sa.core import Func
+
+    out = []
+    for f in inners:
+        node = common.inline_lexical_helpers(f.node, depth=2)
+        g = Func(qualname=f.qualname, module=f.module, node=node, cls=None, parent=f.parent)
+        p.func_of_node[id(node)] = g
+        out.append(g)
+    p._api_inners = out
+    return out
 
 
 def compiled_function_calls(p, f):
